@@ -1279,10 +1279,17 @@ func (x *Evaluator) evalFieldRead(a *ssa.FieldAddr, t types.Type, e *env, c *eva
 	st := a.X.Type().Underlying().(*types.Pointer).Elem()
 	// the only field of a wrapper struct that is itself a field of the object (a stack type
 	// around a list): reading it is reading that field
-	if wst, ok := st.Underlying().(*types.Struct); ok && wst.NumFields() == 1 {
+	if wst, ok := st.Underlying().(*types.Struct); ok {
 		if _, isLocal := a.X.(*ssa.Alloc); !isLocal {
 			if pv, ok := x.evalC(a.X, e, c).(PtrV); ok && pv.FA != nil && pv.Env != nil {
-				return x.evalFieldRead(pv.FA, t, pv.Env, c)
+				if wst.NumFields() == 1 {
+					return x.evalFieldRead(pv.FA, t, pv.Env, c)
+				}
+				// a field of a small struct that is itself a field of the object (a name sequence
+				// with its format and its counter): a field of the object in its own right
+				if x.objectField(pv.FA) {
+					return x.evalNestedField(a, pv.FA, t, e, c)
+				}
 			}
 		}
 	}
@@ -2320,4 +2327,91 @@ func (x *Evaluator) accessorNameOf(t types.Type, field int, fname string) string
 		}
 	}
 	return fname
+}
+
+// objectField: fa addresses a field of the object whose methods are evaluated (a named struct
+// of the package under analysis, reached through a pointer that is not a local literal's).
+func (x *Evaluator) objectField(fa *ssa.FieldAddr) bool {
+	pt, ok := fa.X.Type().Underlying().(*types.Pointer)
+	if !ok {
+		return false
+	}
+	named, ok := pt.Elem().(*types.Named)
+	if !ok || x.Pkg == nil || named.Obj().Pkg() != x.Pkg.Pkg {
+		return false
+	}
+	_, isStruct := named.Underlying().(*types.Struct)
+	return isStruct
+}
+
+// nestedFieldName: the name under which field inner of the struct field outer is kept.
+func nestedFieldName(outer *ssa.FieldAddr, inner *ssa.FieldAddr) string {
+	return structFieldName(outer.X.Type(), outer.Field) + "__" + structFieldName(inner.X.Type(), inner.Field)
+}
+
+func (x *Evaluator) evalNestedField(a, outer *ssa.FieldAddr, t types.Type, e *env, c *evalCtx) Val {
+	name := nestedFieldName(outer, a)
+	if isString(t) {
+		key := "nested:" + outer.X.Type().String() + "." + name
+		if v, ok := x.fieldMemo[key]; ok {
+			return v
+		}
+		// every place that gives this field of this struct field a value (the constructor's literal)
+		var ts []Tmpl
+		for _, fn := range x.W.Funcs(x.Role) {
+			for _, b := range fn.Blocks {
+				for _, ins := range b.Instrs {
+					st, ok := ins.(*ssa.Store)
+					if !ok {
+						continue
+					}
+					fa2, ok := st.Addr.(*ssa.FieldAddr)
+					if !ok || fa2.Field != a.Field || !types.Identical(fa2.X.Type(), a.X.Type()) {
+						continue
+					}
+					fa3, ok := fa2.X.(*ssa.FieldAddr)
+					if !ok || fa3.Field != outer.Field || !types.Identical(fa3.X.Type(), outer.X.Type()) {
+						continue
+					}
+					ts = append(ts, asTmpl(x.eval(st.Val, x.TopEnv(fn))))
+				}
+			}
+		}
+		var v Val
+		if len(ts) == 0 {
+			v = x.symbolic(t, "field:"+name)
+		} else {
+			v = strV(mkAlt("", ts...))
+		}
+		if x.fieldMemo == nil {
+			x.fieldMemo = map[string]Val{}
+		}
+		x.fieldMemo[key] = v
+		return v
+	}
+	if isInt(t) && storesField(a.Parent(), a) {
+		k := 0
+		for _, b := range a.Parent().Blocks {
+			for _, ins := range b.Instrs {
+				s2, ok := ins.(*ssa.Store)
+				if !ok {
+					continue
+				}
+				fa2, ok := s2.Addr.(*ssa.FieldAddr)
+				if !ok || fa2.Field != a.Field || !types.Identical(fa2.X.Type(), a.X.Type()) {
+					continue
+				}
+				before := (b == a.Block() && instrIndex(s2) < instrIndex(a)) || (b != a.Block() && b.Dominates(a.Block()))
+				if before {
+					k++
+				}
+			}
+		}
+		site := e.site
+		if k > 0 || site == "" {
+			site += fmt.Sprintf("/i%d", k)
+		}
+		return IntV{Origin: "field:" + name + "@" + site}
+	}
+	return x.symbolic(t, "field:"+name)
 }
